@@ -504,7 +504,7 @@ def merge_harness_records(results, verdict, max_samples=8, only_prefix=None):
             elif t == "sample":
                 if len(samples) < max_samples:
                     samples.append(rec.get("v"))
-            elif t in ("sum", "partial"):
+            elif t in ("sum", "partial", "batchsum"):
                 for k, v in rec.items():
                     if k == "t":
                         continue
